@@ -282,8 +282,14 @@ func proposalCase(o *hx.Out, k int, r *prng.R) {
 	// corpus cases 7..10 and a quarter of the others: co-signed transactions of different senders tied by Conflicts
 	// attributes, the payer's fees at the edge of its balance (see genEdge)
 	edge := (k >= 7 && k <= 10) || (!boundary && !many && r.Chance(1, 4))
-	if k >= 7 && k <= 10 {
+	if k >= 7 && k <= 12 {
 		bind, boundary = "none", false
+	}
+	// corpus cases 11, 12 and a third of the others: a block made elsewhere carries a Conflicts attribute naming a pooled
+	// multi-signer transaction (see foreignConflict)
+	foreign := k == 11 || k == 12 || (!many && r.Chance(1, 3))
+	if foreign {
+		edge = false
 	}
 	if k < 6 {
 		// corpus: the defect fixed by 2cbe22b (state root not counted when sizing the proposal) lived here
@@ -294,8 +300,8 @@ func proposalCase(o *hx.Out, k int, r *prng.R) {
 	o.Count(fmt.Sprintf("proposal:stateroot=%v", nc.stateRoot))
 	// senders and their funding (fixed before any chain exists, so that a chain can be rebuilt identically)
 	nSenders := r.Range(2, 6)
-	if edge {
-		nSenders = max(nSenders, 3)
+	if edge || foreign {
+		nSenders = max(nSenders, 4)
 	}
 	ks := pickKeys(r, nSenders+6)
 	var senders []*acct
@@ -312,7 +318,7 @@ func proposalCase(o *hx.Out, k int, r *prng.R) {
 			amount = 2000_0000_0000
 		} else if edge && i == 0 {
 			amount = 3_0000_0000 // the account whose pooled fees are put at the edge of its balance
-		} else if edge && i == 2 {
+		} else if (edge && i == 2) || (foreign && (i == 0 || i == 2 || i == 3)) {
 			amount = 300_0000_0000
 		} else if r.Chance(1, 5) {
 			amount = int64(r.Range(1, 30)) * 1000_0000 // poor sender: some of its transactions will not fit
@@ -442,6 +448,11 @@ func proposalCase(o *hx.Out, k int, r *prng.R) {
 		}
 		o.Add("proposal:pooled", pooled)
 		poolConsistent(o, k, A, "after pooling")
+		if foreign && round == 0 {
+			if !foreignConflict(o, r, k, s, A, senders, send) {
+				return
+			}
+		}
 		if r.Chance(1, 2) && !many {
 			// the chain moves on before this node proposes: the pool is re-checked against the new state
 			nblk := r.Range(1, 2)
@@ -863,4 +874,52 @@ func genEdge(o *hx.Out, r *prng.R, s *scen, senders []*acct, k int) [][]byte {
 	o.Count(fmt.Sprintf("proposal:edge:eBySenderB=%v,a2NamesE=%v,delta=%d", eBySenderB, a2NamesE, dsel))
 	// a1 and e are pooled first; when e names a2, a2 comes last as well (step 1 of checkTxConflicts)
 	return [][]byte{a1.tx.Bytes(), e.tx.Bytes(), a2.tx.Bytes()}
+}
+
+// foreignConflict: t, sent by S and co-signed by C, is pooled on the proposer; then a block that was NOT built from this
+// node's pool (the conflicting transaction never passes PoolTx here) brings a transaction y with Conflicts(t), signed by
+// C only, by S, by both, or by a third account that does not sign t. The ledger rule (dao.HasTransaction) kills t iff y
+// shares a signer with it; whatever stays pooled afterwards must be admissible, which the caller checks next
+// (VerifyTx of every pooled transaction, proposal, backup-side PoolTx, replica AddBlock).
+func foreignConflict(o *hx.Out, r *prng.R, k int, s *scen, A *world, senders []*acct, send func(*block.Block, string) bool) bool {
+	S, C, X := senders[0], senders[2], senders[3]
+	height := A.bc.BlockHeight()
+	t := s.newCand(r, []*acct{S, C}, 0)
+	t.tx.SystemFee = 100_0000
+	t.tx.ValidUntilBlock = height + 6
+	t.finish(int64(r.Range(0, 100_0000)))
+	tt, _ := transaction.NewTransactionFromBytes(t.tx.Bytes())
+	if err := A.bc.PoolTx(tt); err != nil {
+		o.Count("proposal:foreign:t-not-pooled:" + classify(err))
+		return true
+	}
+	kind := []string{"cosigner", "cosigner", "sender", "both", "stranger"}[r.Intn(5)]
+	switch k {
+	case 11:
+		kind = "cosigner"
+	case 12:
+		kind = "stranger"
+	}
+	ys := map[string][]*acct{"cosigner": {C}, "sender": {S}, "both": {C, S}, "stranger": {X}}[kind]
+	y := s.newCand(r, ys, 0)
+	y.tx.SystemFee = 100_0000
+	y.tx.ValidUntilBlock = height + 2
+	h := tt.Hash()
+	y.tx.Attributes = []transaction.Attribute{{Type: transaction.ConflictsT, Value: &transaction.Conflicts{Hash: h}}}
+	y.finish(0)
+	o.Count("proposal:foreign:conflict-signed-by=" + kind)
+	if !send(A.addBlock(y.tx), "foreign-conflict-block") {
+		return false
+	}
+	pooled := A.bc.GetMemPool().ContainsKey(h)
+	verdict := classify(A.bc.VerifyTx(tt))
+	o.Count(fmt.Sprintf("proposal:foreign:%s:pooled=%v,verify=%s", kind, pooled, verdict))
+	// the statement, on this one transaction: named as a conflict by an on-chain transaction of one of its signers => not in the pool
+	if pooled && kind != "stranger" {
+		o.Fail("pool-keeps-tx-named-by-onchain-conflict-of-signer", k, "t (sender %s, co-signer %s) is still pooled after a block with Conflicts(t) signed by its %s; VerifyTx says %s", S.name, C.name, kind, verdict)
+	}
+	if kind == "stranger" && verdict != "ok" {
+		o.Fail("valid-rejected", k, "a Conflicts attribute of an account that does not sign t makes VerifyTx say %s", verdict)
+	}
+	return true
 }
